@@ -10,7 +10,7 @@
    for the kernels listed at the end of this file, by a proof about the
    instruction list that tools/asm2prog.py regenerates from the .s files on
    every run, executed by the machine model of X86.v: see DESIGN.md 4.C13. *)
-From Strcase Require Import Base Utf8 Spec Kernels X86 X86NonASCII X86IndexByte X86Count.
+From Strcase Require Import Base Utf8 Spec Kernels X86 X86NonASCII X86IndexByte X86Count X86Erase X86Legacy.
 From StrcaseGen Require Import AsmProg.
 
 Theorem C13_index_byte_generic : forall s c, wf s -> 0 <= c < 256 -> index_byte_generic s c = k_index_byte s c.
@@ -105,6 +105,27 @@ Example C13_asm_count_runs :
   X86.run 8149 (repeat 97 70 ++ [75; 98; 107]) (fun _ => 107) 64 true true 107 prog_count_go122_amd64 400
           entry_count_go122_amd64_CountString (init (fun _ => 12345)) = Done (Some 2).
 Proof. vm_compute. reflexivity. Qed.
+
+(* ---- the pre-go1.22 file set (count_amd64.s, indexbyte_amd64.s, index_non_ascii_amd64.s) ----
+   These files are the go1.22 files without the PCALIGN lines: X86Legacy checks by computation that erasing the
+   no-ops of the translated go1.22 programs and renumbering the jump targets gives the translated pre-1.22
+   programs, and X86Erase.erase_preserves_done (erasing no-ops preserves the result of every run, for any
+   program) carries the three kernel theorems over. *)
+Theorem C13_asm_pre122 : forall A s junk slot avx2 c r0,
+  4096 <= A -> A + X86.len s < two63 -> wf s ->
+  (exists fuel, X86.run A s junk slot avx2 true c prog_index_non_ascii_amd64 fuel entry_index_non_ascii_amd64_IndexNonASCII (init r0)
+                = Done (Some (index_non_ascii s))) /\
+  (exists fuel, X86.run A s junk slot avx2 true c prog_indexbyte_amd64 fuel entry_indexbyte_amd64_IndexByteString (init r0)
+                = Done (Some (k_index_byte s (c mod 256)))) /\
+  (exists fuel, X86.run A s junk slot avx2 true c prog_count_amd64 fuel entry_count_amd64_CountString (init r0)
+                = Done (Some (k_count s (c mod 256)))).
+Proof.
+  intros A s junk slot avx2 c r0 HA Hl Hw. split; [|split].
+  - exact (legacy_index_non_ascii_str A s junk slot avx2 true c r0 HA Hl Hw).
+  - exact (legacy_index_byte_str A s junk slot avx2 true c r0 HA Hl Hw).
+  - exact (legacy_count_str A s junk slot avx2 true c r0 HA Hl Hw eq_refl).
+Qed.
+Print Assumptions C13_asm_pre122.
 
 (* the premises are satisfiable and the machine really runs: a 40-byte argument ending 3 bytes before a page end *)
 Example C13_asm_runs :
